@@ -38,8 +38,13 @@ theorem signer_gate (k : Key) (a : Int) (h : k.signer = .ok a) :
             intro hz
             unfold Key.validate at hv
             rcases hkty with h2 | h1
-            · simp [h2, hz] at hv
-            · simp [h1, hz] at hv
+            · by_cases ht : (!k.paramIsBstr (-2) false || !k.paramIsBstr (-3) true ||
+                  !k.paramIsBstr (-4) false) = true
+              · simp [h2, ht] at hv
+              · simp [h2, hz, ht] at hv
+            · by_cases ht : (!k.paramIsBstr (-2) false || !k.paramIsBstr (-4) false) = true
+              · simp [h1, ht] at hv
+              · simp [h1, hz, ht] at hv
           -- the algorithm: k.alg = 0 → derived; else validate forces k.alg = derived
           have halg : k.alg = 0 ∨ k.alg = d := by
             by_cases hz : k.alg = 0
